@@ -196,6 +196,19 @@ class LockStep:
         base = rowname.rsplit('_', 1)[0] if info.get('row') else 'undefined'
         if observe.diff(pre, post) - {'PC'}:
             self.res['nontrivial'].add('%s|%s|%s' % (rowname, tag, ctx.cfgname))
+        # what the judged steps did (evidence: the monitor saw these behaviours, not just "ran")
+        for ev in getattr(ref, 'events', ()) or ():
+            self.bump('judged_steps_taking_' + ev)
+        if info.get('cond_passed') is False:
+            self.bump('judged_steps_condition_failed')
+        if getattr(ref, 'footprint_w', None):
+            self.bump('judged_steps_writing_memory')
+        if getattr(ref, 'translations', None):
+            self.bump('judged_steps_accessing_data')
+        if pre['PC'] != 0x10000:
+            self.bump('judged_steps_code_not_at_default_address')
+        if (pre['cpsr'] >> 9) & 1:
+            self.bump('judged_steps_big_endian_data')
         if self.pid == 'C12' and verdict == 'ok':
             self.bump('negative_invariants_checked')
             pm, qm = pre['cpsr'] & 0x1F, post['cpsr'] & 0x1F
